@@ -278,7 +278,7 @@ def private_helper(db, fid):
 
 
 KERNEL_JOBS = [('U', 'mul', None), ('U', 'div64', None), ('U', 'dispatch', 'short'), ('U', 'dispatch', 'long')]
-SPECIAL_QUICK = (0, 1, 2, 31, 62, 63, 64, 65, 100, 126, 127)
+SPECIAL_QUICK = tuple(sorted(set((0, 1, 2, 31, 62, 63, 64, 65, 100, 126, 127)) | set(range(0, 128, 5))))
 
 
 def kernel_jobs(tier, dep=False):
